@@ -70,8 +70,17 @@ def build_circuit(spec):
     import perceval as pcvl
     c = pcvl.Circuit(spec["m"])
     for off, leaf in spec["comps"]:
-        c.add(off, gens.build_leaf(leaf))
+        c.add(off, build_weak(leaf) if leaf["t"] == "W" else gens.build_leaf(leaf))
     return c
+
+
+def build_weak(leaf):
+    """2-mode rotation with a tiny rational sine (Pythagorean triple): transition probabilities ~ 4/k^2"""
+    import perceval as pcvl
+    from perceval.components import Unitary
+    k = leaf["k"]
+    c_, s_ = (k * k - 1) / (k * k + 1), 2 * k / (k * k + 1)
+    return Unitary(pcvl.Matrix(np.array([[c_, -s_], [s_, c_]], dtype=complex)))
 
 
 def gen_ps(rng, m, depth):
@@ -391,7 +400,8 @@ def run_real(cfg):
         if cfg["kind"] == "sim":
             sim = Simulator(pcvl.BackendFactory.get_backend(cfg["backend"]))
             sim.set_circuit(circ)
-            sim.set_precision(0)
+            if cfg.get("prec", 0) != "default":
+                sim.set_precision(cfg.get("prec", 0))
             members = cfg["members"]
             fock = [mb for mb in members if "state" in mb]
             if cfg.get("prev"):
@@ -455,7 +465,7 @@ def run_real(cfg):
                 if "user" in prev:
                     p.with_input(pcvl.BasicState(cfg["user"]))
             out["full_input"] = list(p.input_state)
-            res = p.probs(precision=0)
+            res = p.probs() if cfg.get("prec", 0) == "default" else p.probs(precision=cfg.get("prec", 0))
             U = np.array(p.linear_circuit().compute_unitary(), dtype=complex)
             lean_members = []
             for sv, pr in p.source_distribution.items():
@@ -463,7 +473,8 @@ def run_real(cfg):
                 lean_members.append({"w": float(pr), "groups": groups_of(tags_of(sv[0]))})
     except Exception as e:                       # noqa: BLE001 — every exception is an observation
         return {"err": type(e).__name__, "msg": str(e)[:300]}
-    out.update({"obs": canon_result(res), "U": U, "members": lean_members})
+    out.update({"obs": canon_result(res), "U": U, "members": lean_members,
+                "min_p": float(pcvl.utils.global_params["min_p"])})
     return out
 
 
@@ -745,6 +756,194 @@ def compare(obs, ref):
     return bad
 
 
+
+# ------------------------------------------------------------------------------------------------
+# probability trimming at a non-zero precision (PM.C04.probsSvdθ; theorems physical_perf_trim_exact,
+# logical_perf_trim_bound, results_trim_bound)
+# ------------------------------------------------------------------------------------------------
+PRECS = ["default", "default", "default", 1e-6, 1e-4, 1e-3, 1e-2, 0.1, 0.1, 0.3]
+DEFAULT_PREC = 1e-6
+
+
+def gen_trim_config(rng, max_m):
+    """a fast-path configuration (Fock members; no detectors or PNR detectors) run at a non-zero precision, with
+    member weights spread over several orders of magnitude and, sometimes, a weakly coupling circuit"""
+    if rng.random() < 0.7:
+        cfg = gen_sim_config(rng, max_m)
+        # weights over several orders of magnitude: some members fall under max_p * precision
+        if rng.random() < 0.75:
+            for mb in cfg["members"]:
+                mb["w"] *= rng.choice([1.0, 1.0, 1.0, 0.3, 1e-2, 1e-4, 1e-6, 3e-7, 1e-8])
+            tot = sum(mb["w"] for mb in cfg["members"])
+            for mb in cfg["members"]:
+                mb["w"] /= tot
+    else:
+        cfg = gen_proc_config(rng, max_m)
+        if cfg["noise"] is None or rng.random() < 0.5:
+            cfg["noise"] = {"indistinguishability": rng.choice([0.5, 0.9, 0.99, 0.999]),
+                            "transmittance": rng.choice([1.0, 0.9, 0.5, 0.999]),
+                            "g2": rng.choice([0.0, 0.0, 0.01, 0.1]) if sum(cfg["user"]) <= 2 else 0.0}
+            if cfg["filter"] is None:
+                cfg["filter"] = rng.randint(0, sum(cfg["user"]))
+    cfg.pop("prev", None)
+    m = cfg["m"]
+    if not dets_all_pnr(cfg.get("dets")):
+        cfg["dets"] = rng.choice([None, ["pnr" if rng.random() < 0.5 else None for _ in range(m)]])
+    if rng.random() < 0.35:
+        # weak couplings: output probabilities of a few 1e-6 .. 1e-4, products of them below the tensor threshold
+        comps = []
+        for _ in range(rng.randint(1, 3)):
+            comps.append([rng.randint(0, m - 2), {"t": "W", "k": rng.choice([30, 100, 300, 1000, 3000])}])
+        if rng.random() < 0.5:
+            leaf = gens.gen_leaf(rng, m, kinds=("BS", "PERM"))
+            comps.insert(rng.randint(0, len(comps)), [rng.randint(0, m - gens.leaf_width(leaf)), leaf])
+        cfg["circ"] = {"m": m, "comps": comps}
+    cfg["prec"] = rng.choice(PRECS)
+    cfg["trim"] = True
+    return cfg
+
+
+def n_outputs(m, n):
+    return math.comb(m + n - 1, n)
+
+
+def apriori_trim_bound(cfg, members, eff_filter, min_p):
+    """Lean-independent upper bound on the probability mass the two thresholds can remove (used by the direct
+    oracle only): members at or below the threshold, plus threshold/10 per node of every member's product tree"""
+    H = sum(v for _, v in cfg["heralds"])
+    prec = DEFAULT_PREC if cfg["prec"] == "default" else cfg["prec"]
+    passing = [mb for mb in members if sum(map(sum, mb["groups"])) >= eff_filter + H]
+    max_p = max([mb["w"] for mb in passing] + [0.0])
+    theta = max(min_p, max_p * prec)
+    bound = 0.0
+    for mb in passing:
+        if mb["w"] <= theta * (1 + 1e-9):
+            bound += mb["w"]
+        if mb["w"] > theta * (1 - 1e-9) and len(mb["groups"]) >= 2:
+            sizes = [n_outputs(cfg["m"], sum(g)) for g in mb["groups"]]
+            nodes, prod = sum(sizes), 1
+            for sz in sizes:
+                prod *= sz
+                nodes += prod
+            bound += min(mb["w"], theta / 10 * nodes)
+    return min(1.0, bound), theta
+
+
+def judge_trim(chk, cfg):
+    """-> None or (kind, signature, what)"""
+    entry = "Processor.probs" if cfg["kind"] == "proc" else "Simulator.probs_svd"
+    try:
+        real = chk.real.call("run_real", cfg)
+    except Crash as e:
+        return crash_verdict(cfg, e, entry)
+    if "err" in real:
+        return ("violation", "raises-" + real["err"], f"{entry} (precision {cfg['prec']}) raised {real['err']}: {real['msg']}")
+    eff = effective_filter(cfg)
+    prec = DEFAULT_PREC if cfg["prec"] == "default" else cfg["prec"]
+    req = {"op": "c04trim", "m": cfg["m"], "U": core.mat(real["U"].tolist()),
+           "members": [{"w": core.rat(mb["w"]), "groups": mb["groups"]} for mb in real["members"]],
+           "cfg": {"heralds": cfg["heralds"], "ps": cfg["psj"], "filter": eff, "keepHeralds": cfg["keep"], "pnr": True},
+           "prec": core.rat(prec), "minp": core.rat(real["min_p"])}
+    rep = chk.lean.ask(req)
+    if "err" in rep:
+        return ("broken", "lean-rejects", f"driver rejected the request: {rep['err']}")
+    obs = real["obs"]
+
+    def out_of(j):
+        return {"results": dist_of_json(j["results"]), "phys": Fraction(j["phys"]), "logical": Fraction(j["logical"])}
+
+    spec, trimmed = out_of(rep["spec"]), out_of(rep["trimmed"])
+    retained = float(Fraction(rep["spec"]["retained"]))
+    ret_trim = float(Fraction(rep["retainedTrimmed"]))
+    t_mass, t_ret = float(Fraction(rep["trimmedMass"])), float(Fraction(rep["trimmedRetained"]))
+    gap = float(Fraction(rep["gap"]))
+    chk.last_retained = ret_trim
+    chk.branch("trim-case")
+    if cfg["prec"] == "default":
+        chk.branch("trim-default-precision")
+    if cfg["kind"] == "proc":
+        chk.branch("trim-processor")
+    if rep["droppedMembers"] > 0:
+        chk.branch("trim-member-dropped")
+    if rep["prunedEntries"] > 0:
+        chk.branch("trim-tensor-pruned")
+        if t_mass > 0 and cfg["heralds"]:
+            chk.branch("trim-tensor-pruned-under-mask")
+    if t_mass > 0 and ret_trim > TINY:
+        chk.branch("trim-bites-with-retained-mass")
+    if t_ret > 1e-8 and ret_trim > TINY:
+        chk.branch("trim-changes-the-answer")
+        if cfg["prec"] == "default":
+            chk.branch("trim-changes-the-answer-at-default-precision")
+    chk.count("trim_precision", str(cfg["prec"]))
+    chk.count("trimmed_mass_decade", "0" if t_mass <= 0 else str(max(-12, math.floor(math.log10(t_mass)))))
+    tie = gap < 1e-6
+    if tie:
+        chk.branch("trim-threshold-tie")
+    phys = float(spec["phys"])
+    bad = []
+    # (1) physical_perf_trim_exact
+    if not core.close(obs["phys"], phys, TOL):
+        bad.append(("physical_perf", f"returned {obs['phys']!r} at precision {cfg['prec']}, exact {phys!r} "
+                                     f"(trimming must not change it)"))
+    # (2) logical_perf_trim_bound / results_trim_bound: within the proved distance of the specification
+    if not tie and not bad and phys > TINY:
+        lo = float(spec["logical"]) - t_ret / phys
+        if not (lo - TOL - 1e-9 * abs(lo) <= obs["logical"] <= float(spec["logical"]) + TOL):
+            bad.append(("logical_perf", f"returned {obs['logical']!r}, exact {float(spec['logical'])!r}, proved "
+                                        f"interval [{lo!r}, exact] (trimmed retained mass {t_ret!r})"))
+    if not tie and not bad and ret_trim > TINY:
+        eps = t_ret / retained
+        for k in set(obs["results"]) | set(spec["results"]):
+            x, xh = obs["results"].get(k, 0.0), float(spec["results"].get(k, 0))
+            if abs(x - xh) > eps + TOL + 1e-9 * xh:
+                bad.append(("results", f"state {list(k)}: returned {x!r}, exact {xh!r}, proved distance {eps!r}"))
+                break
+    # (3) the trimmed model itself (thresholds as coded), tight
+    mbad = []
+    if not tie and not bad:
+        tm = dict(trimmed)
+        o2 = dict(obs)
+        if ret_trim <= TINY:
+            tm["results"], o2 = {}, dict(obs, results={})
+        if 0 < phys <= TINY:
+            tm["logical"], o2 = Fraction(0), dict(o2, logical=0.0, **{"global": None})
+        mbad = compare(o2, tm)
+    if not bad and not mbad:
+        return None
+    # failing-input search: the property evaluated directly on the real code (selection-free simulator at
+    # precision 0, conditioned in Python) with a Lean-independent bound on what trimming may remove
+    try:
+        d = chk.real.call("direct_oracle", cfg, eff)
+    except Exception as e:  # noqa: BLE001
+        return ("broken", "direct-oracle-crash", f"{type(e).__name__}: {e}")
+    B, theta = apriori_trim_bound(cfg, real["members"], eff, real["min_p"])
+    what = None
+    if not core.close(obs["phys"], d["phys"], TOL):
+        what = ("physical_perf", f"returned {obs['phys']!r}, directly computed {d['phys']!r}")
+    elif d["phys"] > TINY and not (d["logical"] - B / d["phys"] - TOL <= obs["logical"] <= d["logical"] + TOL):
+        what = ("logical_perf", f"returned {obs['logical']!r}, directly computed {d['logical']!r}, at most "
+                                f"{B!r} of the probability can be trimmed")
+    else:
+        Rd = d["phys"] * d["logical"]
+        if Rd > TINY and Rd - B > TINY:
+            for k in set(obs["results"]) | set(d["results"]):
+                x, xh = obs["results"].get(k, 0.0), d["results"].get(k, 0.0)
+                if abs(x - xh) > B / (Rd - B) + TOL:
+                    what = ("results", f"state {list(k)}: returned {x!r}, directly computed {xh!r}, at most {B!r} "
+                                       f"of the probability can be trimmed")
+                    break
+    if what is not None:
+        return ("violation", "trim-" + what[0],
+                f"{what[0]} at precision {cfg['prec']} (threshold {theta!r}) is further from the conditioned "
+                f"unconditioned distribution than trimming allows (heralds {cfg['heralds']}, filter {cfg['filter']}, "
+                f"post-selection {cfg['ps']}): {what[1]}")
+    first = (bad or mbad)[0]
+    return ("broken", ("trim-bound:" if bad else "trim-model-vs-code:") + first[0],
+            (f"outside the interval proved for the trimming model: {first[1]}" if bad else
+             f"trimming model (thresholds as coded) and implementation differ: {first[1]}")
+            + f" [precision {cfg['prec']}, threshold {rep['theta']}, gap {gap!r}]")
+
 # ------------------------------------------------------------------------------------------------
 def effective_filter(cfg):
     """The user's filter; when it is left unset on a perfect source the documented default is the number of
@@ -765,6 +964,8 @@ def crash_verdict(cfg, e, where):
 
 def judge(chk, cfg):
     """-> None or (kind, signature, what)"""
+    if cfg.get("trim"):
+        return judge_trim(chk, cfg)
     entry = "Processor.probs" if cfg["kind"] == "proc" else "Simulator.probs_svd"
     try:
         real = chk.real.call("run_real", cfg)
@@ -1036,7 +1237,7 @@ def signature_of(cfg):
     else:
         shape = (tuple(cfg["user"]), json.dumps(cfg["noise"], sort_keys=True))
     return (cfg["kind"], cfg["backend"], cfg["m"], hs, cfg["filter"], cfg["ps"], cfg["keep"], shape,
-            json.dumps(cfg.get("dets")), bool(cfg.get("prev")))
+            json.dumps(cfg.get("dets")), bool(cfg.get("prev")), str(cfg.get("prec", 0)))
 
 
 def ps_modes(j):
@@ -1146,7 +1347,7 @@ def handle(chk, cfg, do_shrink=True):
         if hs:
             chk.branch("mask-path-with-retained-mass")
     chk.case(signature_of(cfg), nontrivial=nontrivial,
-             sample={k: cfg[k] for k in ("kind", "backend", "m", "heralds", "filter", "ps", "keep")})
+             sample={k: cfg.get(k) for k in ("kind", "backend", "m", "heralds", "filter", "ps", "keep", "prec")})
     if res is not None:
         kind, sig, what = res
         seen = chk.__dict__.setdefault("_c04_shrunk", set())
@@ -1220,7 +1421,11 @@ REQUIRED = ["mask-path", "no-heralds", "herald-in-the-middle", "adjacent-heralds
             "detectors-declared-before-heralds", "detector-filter-bites-under-pnr-heralds",
             "postselect-mode-after-dropped-herald", "reused-simulator", "reused-processor",
             "mask-cleared-on-reuse", "reused-with-other-heralds", "reused-processor-changed-filter",
-            "reused-processor-changed-user", "reused-processor-changed-ps", "reused-processor-changed-noise"]
+            "reused-processor-changed-user", "reused-processor-changed-ps", "reused-processor-changed-noise",
+            # probability trimming at a non-zero precision
+            "trim-case", "trim-default-precision", "trim-processor", "trim-member-dropped", "trim-tensor-pruned",
+            "trim-tensor-pruned-under-mask", "trim-bites-with-retained-mass", "trim-changes-the-answer",
+            "trim-changes-the-answer-at-default-precision"]
 
 
 def run(chk: core.Check):
@@ -1264,6 +1469,8 @@ def run(chk: core.Check):
             handle(chk, gen_sim_config(rng, 4, superposed=True))
         for _ in range(n_proc):
             handle(chk, gen_proc_config(rng, max_m))
+        for _ in range(chk.pick(320, 2600)):
+            handle(chk, gen_trim_config(rng, max_m))
         malformed(chk, rng, chk.pick(30, 300))
         chk.extra["real_code_worker_crashes"] = chk.real.crashes
     finally:
